@@ -313,10 +313,19 @@ theorem holdFrom_length (a : Rat) (fs : List Rat) : (holdFrom a fs).length = fs.
   | nil => rfl
   | cons f fs ih => simp [holdFrom, ih]
 
-theorem holdZeros_length (fs : List Rat) : (holdZeros fs).length = fs.length := by
+theorem holdForward_length (fs : List Rat) : (holdForward fs).length = fs.length := by
   cases fs with
   | nil => rfl
-  | cons f fs => simp [holdZeros, holdFrom_length]
+  | cons f fs => simp [holdForward, holdFrom_length]
+
+theorem backFill_length (hs : List Rat) : (backFill hs).length = hs.length := by
+  unfold backFill
+  split
+  · rfl
+  · rw [List.length_append, List.length_map, ← List.length_append, List.takeWhile_append_dropWhile]
+
+theorem holdZeros_length (fs : List Rat) : (holdZeros fs).length = fs.length := by
+  simp [holdZeros, backFill_length, holdForward_length]
 
 theorem sortPairs_zip_ne_nil {a b : List Rat} (ha : a ≠ []) (hl : b.length = a.length) :
     sortPairs (List.zip a b) ≠ [] := by
